@@ -476,8 +476,14 @@ class Path:
                 if n is not None and n.arg in fc.params:
                     loc[n.arg] = V(z3.Const(n.arg, z(fc.params[n.arg])), fc.params[n.arg])
         for n in fc.params:
-            if n not in loc and n.startswith("ghost_"):
-                loc[n] = V(z3.Const(n, z(fc.params[n])), fc.params[n])
+            if n not in loc:
+                # ghost parameters, and free (closure) variables of a nested function: symbolic constants
+                s_ = fc.params[n]
+                if isinstance(s_, FunS):
+                    loc[n] = V(None, s_)
+                else:
+                    loc[n] = V(z3.Const(n, z(s_)), s_)
+                    self.wf(loc[n])
 
     def _run_inner(self):
         fc, node = self.fc, self.node
@@ -560,6 +566,9 @@ class Path:
         for stmt in fc.ghost_exit_l:
             self.exec_ghost(stmt, result=result)
         for wname, (wsort, bound_to) in getattr(fc, "witness_bind", {}).items():
+            if bound_to in self.env.locals:
+                self.env.locals[wname] = self.env.locals[bound_to]
+        for wname, (wsort, bound_to) in getattr(fc, "witness_vals", {}).items():
             if bound_to in self.env.locals:
                 self.env.locals[wname] = self.env.locals[bound_to]
         sv = self.env.spec_view(old=self.entry, result=result)
